@@ -44,7 +44,8 @@ MANIFEST = dict(
          "is established per run by in-Coq evaluation of the reference interpreter sm_denote on the implementation's text "
          "(sm_write_denotes is _partial).",
     note="Trusted: Coq kernel+VM, generator/serialiser, table translator, repr(float) as a value oracle; binary64 rounding measured not proved. "
-         "Known findings: sm-selectable-no, sm-pad-width, rate-offset-unscaled.",
+         "Former findings sm-selectable-no (16f3fe3), sm-pad-width (d872b70), rate-offset-unscaled (0398fe5) are fixed; the old "
+         "behaviours survive only as named OLD variants for the _refuted witnesses.",
     technique="Coq proof over executable model + vm_compute correspondence against the implementation + reference interpreter",
     design="4/C03")
 
@@ -482,21 +483,8 @@ def _first_tempo(ms):
 
 
 def classify(case, out, kind):
-    ms = out.get("ms")
-    text = out.get("v")
-    if not ms or text is None:
-        return None
-    if not ms["selectable"] and "#SELECTABLE:NO;" not in text:
-        return "sm-selectable-no"
-    keys = dict(G.supported_types())
-    # a chart with a key count other than 4 whose body contains a 4-wide padding row
-    bodies = text.split("#NOTES:")[1:]
-    for c, b in zip(ms["maps"], bodies):
-        k = keys.get(c["chart_type"])
-        if k is not None and k != 4 and re.search(r"(^|\n)0000(\n|$)", b.split(":")[-1]):
-            return "sm-pad-width"
-    if "rate" in case and ms["offset"] is not None and _first_tempo(ms) is not None and _fr(ms["offset"]) != _first_tempo(ms):
-        return "rate-offset-unscaled"
+    # the former findings sm-selectable-no (16f3fe3), sm-pad-width (d872b70), rate-offset-unscaled (0398fe5) are fixed:
+    # nothing is treated as known any more
     return None
 
 
